@@ -556,7 +556,6 @@ func ruleStateAtomic() *Rule {
 	}
 }
 
-
 // stateCacheCoherent: State() answers from persistentStateStorage.state whenever that field is set and reads the file
 // only when it is not. What SetState wrote is therefore what State() returns only if every successful SetState leaves
 // the field describing its own arguments (or clears it). restore() reads State() on every Start/Restart of the same
@@ -670,7 +669,6 @@ func stateCacheCoherent(p *Program, obs *obSet) {
 	}
 	obs.ok(key, p.Pos(set.Pos()), "every successful return is dominated by a store of the arguments (or nil) into the cached state that State() answers from")
 }
-
 
 // targetNeverUnlinked: the whole point of write-temporary-then-rename is that the final name always names a complete
 // file: the old one until the rename, the new one from it on. Removing (or truncating, or re-creating) the final name
